@@ -298,7 +298,7 @@ class Report:
                 return False
         if len(self.violations) >= 5:      # enough replays; keep counting
             self.violations.append(None); return True
-        d = os.path.join(VERIF, 'replays', self.prop)
+        d = os.path.join(os.environ.get('VERIF_OUT', VERIF), 'replays', self.prop)
         os.makedirs(d, exist_ok=True)
         path = os.path.join(d, '%d-%d.json' % (self.seed, len(self.violations)))
         replay_obj = dict(replay_obj); replay_obj['property'] = self.prop; replay_obj['signature'] = signature
@@ -315,8 +315,9 @@ class Report:
         }
         if self.known_lines:
             ev['coverage']['known_findings_reported'] = self.known_lines
-        os.makedirs(os.path.join(VERIF, 'evidence'), exist_ok=True)
-        json.dump(ev, open(os.path.join(VERIF, 'evidence', '%s.json' % self.prop), 'w'), indent=1)
+        evd = os.path.join(os.environ.get('VERIF_OUT', VERIF), 'evidence')
+        os.makedirs(evd, exist_ok=True)
+        json.dump(ev, open(os.path.join(evd, '%s.json' % self.prop), 'w'), indent=1)
         return 1 if self.violations else 0
 
 def diff_cases(rep, cases, c_out, m_out, what, classify=None, max_report=3):
